@@ -110,6 +110,13 @@ class ExprMixin:
     def new_list(self, vals, st: State, elem: Sort = None):
         from .state import new_ref
 
+        hint = getattr(self, "_ann_hint", None)
+        if vals and elem is None and hint is not None and hint.kind == "list" and hint.args[0].kind == "list":
+            # `xs: List[List[T]] = [[]]`: the inner (empty) lists take their element sort from the annotation
+            v0 = self.deref(vals[0], st)
+            if isinstance(v0, VSeq) and v0.elem.kind == "any" and not v0.pieces:
+                elem = hint.args[0]
+                vals = [VSeq(elem.args[0], [], is_str=False) if (isinstance(self.deref(x, st), VSeq) and not self.deref(x, st).pieces) else x for x in vals]
         if vals:
             elem = elem or self.sort_of(vals[0], st)
             vs = VSeq(elem, [Piece("lit", items=[self.to_term(x, elem, st) for x in vals])])
@@ -776,6 +783,18 @@ class ExprMixin:
         return res if res.is_str else self.box_list(res, st)
 
     def ev_Attribute(self, node, st):
+        # `lines[-1].append` on a local list of lists: a *tail alias* (see tail_alias_* in exec_call) - the bound method of
+        # the container's last element; calling it appends to that element as long as the container has not been
+        # restructured since (checked at the call)
+        v = node.value
+        if (node.attr == "append" and isinstance(v, ast.Subscript) and isinstance(v.value, ast.Name)
+                and isinstance(v.slice, ast.UnaryOp) and isinstance(v.slice.op, ast.USub)
+                and isinstance(v.slice.operand, ast.Constant) and v.slice.operand.value == 1):
+            cont = st.env.get(v.value.id)
+            cur = st.heap.get(cont.ref) if isinstance(cont, VRef) else None
+            if isinstance(cur, VSeq) and not cur.is_str and cur.elem.kind == "list":
+                yield from self.tail_alias_new(cont, st)
+                return
         for base, s in self.ev(node.value, st):
             if isinstance(base, Exc):
                 yield base, s
